@@ -1,8 +1,32 @@
-"""Kani harnesses: complete finite-domain checks and bounded (labelled) byte-level stand-ins."""
+"""Kani harnesses (thorough tier only): complete finite-domain checks and BOUNDED byte-level stand-ins (never counted as proved).
+
+The harness crate /verif/kani includes the real dependency-free source files of typstyle-core by `#[path]` from /repo's working
+tree.  A harness that fails is reported as a violation with Kani's failing check; a harness that times out or cannot be built
+is reported as such in the evidence and never as an alarm."""
 from __future__ import annotations
-import os, subprocess
+import os, re, shutil, subprocess, time
 
 VERIF = os.path.dirname(os.path.dirname(os.path.abspath(__file__)))
+REPO = os.environ.get('VP_REPO', '/repo')
+
+# harness -> (kind, what it covers, bound, timeout seconds)
+HARNESSES = {
+    'complete_context': ('complete', 'pretty/context.rs Mode::is_* and Context::{with_mode,with_mode_if,suppress_breaks}', 'full domain (4 modes x 4 modes x 2 x 2)', 300),
+    'complete_bool_replace': ('complete', 'ext.rs BoolExt::replace', 'full domain', 300),
+    'bounded_trim_range': ('bounded', 'utils.rs trim_range: no panic, result inside the request, on char boundaries', 'all valid UTF-8 strings of <= 3 bytes, all ranges on boundaries', 900),
+    'bounded_count_spaces': ('bounded', 'utils.rs count_spaces_after_last_newline: no panic', 'all valid UTF-8 strings of <= 3 bytes, all boundary positions', 900),
+    'bounded_linebreaks': ('bounded', 'ext.rs has_linebreak / count_linebreaks == Typst newline count', 'all valid UTF-8 strings of <= 3 bytes', 900),
+    # (bounded_strip_trailing_whitespace exists in the crate but CBMC gives no verdict within 25 min even for 2 bytes -- String
+    #  allocation; C11 rests on the Verus proof alone)
+}
+BY_PROPERTY = {
+    'C01': ['complete_context', 'complete_bool_replace'],
+    'C04': ['complete_context'],
+    'C05': ['bounded_trim_range', 'bounded_count_spaces', 'bounded_linebreaks'],
+    'C06': ['bounded_linebreaks'],
+    'C08': ['bounded_linebreaks'],
+    'C13': ['bounded_trim_range', 'bounded_count_spaces'],
+}
 
 
 def version() -> str:
@@ -10,4 +34,40 @@ def version() -> str:
 
 
 def run_for_property(pid, tier):
-    return []
+    if tier != 'thorough' or pid not in BY_PROPERTY:
+        return []
+    if os.path.realpath(REPO) != '/repo':
+        return [{'harness': h, 'target': HARNESSES[h][1], 'kind': HARNESSES[h][0], 'bound': HARNESSES[h][2], 'status': 'skipped',
+                 'note': 'the harness crate includes /repo by path; checks are running on a scratch copy'} for h in BY_PROPERTY[pid]]
+    d = os.path.join(VERIF, 'kani')
+    lock = os.path.join(REPO, 'Cargo.lock')
+    if os.path.exists(lock) and not os.path.exists(os.path.join(d, 'Cargo.lock')):
+        shutil.copy(lock, os.path.join(d, 'Cargo.lock'))
+    env = dict(os.environ, CARGO_NET_OFFLINE='true', CARGO_TARGET_DIR=os.path.join(VERIF, 'build', 'kani-target'))
+    out = []
+    for h in BY_PROPERTY[pid]:
+        kind, target, bound, tmo = HARNESSES[h]
+        t0 = time.time()
+        rec = {'harness': h, 'target': target, 'kind': kind, 'bound': bound, 'cmd': '(cd kani && CARGO_NET_OFFLINE=true cargo kani --harness %s)' % h}
+        try:
+            p = subprocess.run(['cargo', 'kani', '--harness', h], cwd=d, env=env, capture_output=True, text=True, timeout=tmo)
+            txt = p.stdout + p.stderr
+            if 'VERIFICATION:- SUCCESSFUL' in txt:
+                rec['status'] = 'ok'
+                m = re.search(r'\*\* (\d+) of (\d+) failed', txt)
+                if m:
+                    rec['checks'] = int(m.group(2))
+            elif 'VERIFICATION:- FAILED' in txt:
+                rec['status'] = 'failed'
+                fails = re.findall(r'Check \d+: (\S+)\s+- Status: FAILURE\s+- Description: "([^"]*)"\s+- Location: ([^\n]*)', txt)
+                rec['property'] = '; '.join('%s (%s) at %s' % (a, b, c.strip()) for a, b, c in fails[:5])
+                rec['output'] = txt[-4000:]
+            else:
+                rec['status'] = 'error'
+                rec['note'] = txt[-600:]
+        except subprocess.TimeoutExpired:
+            rec['status'] = 'timeout'
+            rec['note'] = 'no verdict within %d s' % tmo
+        rec['seconds'] = round(time.time() - t0, 1)
+        out.append(rec)
+    return out
